@@ -4,6 +4,8 @@ pub mod hooks;
 pub mod world;
 pub mod run;
 pub mod par;
+pub mod searchcase;
+pub mod restrict;
 pub mod gen {
     pub mod net;
 }
